@@ -556,7 +556,7 @@ let str_of_text t = String.concat "," (List.map (fun c -> string_of_int (int_of_
 let not_found_str = "HTTP/1.0 404 Not Found\r\nContent-Type: text/plain\r\n\r\nnot found"
 let not_found_bytes = List.map (fun c -> n_of_int (Char.code c)) (List.init (String.length not_found_str) (String.get not_found_str))
 let cold_outs : int list list ref = ref []
-type netop = NFetch of int | NUnknown of jv * int | NListing of int * int * int | NWebfinger of int list | NPaging of int * int list | NFeed of int list * (int * int) list * int list
+type netop = NFetch of int | NUnknown of jv * int | NListing of int * int * int | NWebfinger of int list | NPaging of int * int list | NFeed of int list * (int * int) list * int list | NUserInput of int list
 type netcase = { cap : int; base : int; universe : n list array; world : (int * n list * int) list; modes : int list; ops : netop list }
 let take_netcase args =
   let (cap, r) = take1 args in
@@ -576,6 +576,7 @@ let take_netcase args =
                     else if k = 2 || k = 3 then let (ui, r) = take1 r in let (cnt, r) = take1 r in (NListing (k, ui, cnt), r)
                     else if k = 4 then let (bs, r) = take_list r in (NWebfinger bs, r)
                     else if k = 5 then let (ui, r) = take1 r in let (am, r) = take_list r in (NPaging (ui, am), r)
+                    else if k = 7 then let (bs, r) = take_list r in (NUserInput bs, r)
                     else if k = 6 then
                       let (ins, r) = take_list r in
                       let (nt, r) = take1 r in
@@ -711,6 +712,27 @@ let run_net args lib =
          | None -> out := !out @ [[1]]
          | Some vs -> out := !out @ [0 :: 4 :: List.length vs :: List.concat_map (fun v -> [1; v]) vs @ [0]]);
         cold := !cold @ [[-1]]
+      | NUserInput bs ->
+        (* pub.FetchUserInput: "@name" / "!name" -> webfinger on the rest, then pub.New(link); anything else that is not a local
+           path -> pub.New(text).  Observed: failure item or not (the generator serves plain actors and notes as targets) *)
+        let txt s = List.map (fun c -> n_of_int (Char.code c)) (List.init (String.length s) (String.get s)) in
+        let https_p = List.map n_of_int [104;116;116;112;115;58;47;47] in
+        let mk_url host uri =
+          let c = https_p @ host @ uri in
+          (match find_canon c with Some _ -> () | None -> Hashtbl.replace extra c { canon = c; https = true; host = host; uri = uri }); c in
+        let name = List.map n_of_int bs in
+        let fetch v =
+          let ((rs, c'), l) = fetch_unknown w is_https resolve cap parse_ref url_parse host_of !cache v None in
+          cache := c'; log := !log @ l;
+          (match rs with FUOk _ -> "item" | FUErr _ -> "failure") in
+        let kind = (match bs with
+            | (64 | 33) :: _ ->
+              let ((rs, c'), l) = resolve_webfinger w is_https resolve cap mk_url !cache (List.tl name) in
+              cache := c'; log := !log @ l;
+              (match rs with WFLink h -> fetch (JStr h) | _ -> "failure")
+            | _ -> fetch (JStr name)) in
+        out := !out @ [0 :: put_jv (JStr (txt kind)) @ [0]];
+        cold := !cold @ [[-1]]
       | NFeed (ins, table, amounts) ->
         (* splicer.NewSplicer(inputs) + Harvest through the continuation: Splicer.sp_harvest over sources that are remote
            collections (Paging.load_page / Collection.harvest); an input that is not a collection has no page *)
@@ -799,7 +821,7 @@ let orc_net args lib impl =
             let (v, r3) = take_jv r2 in
             (match op with
              | NFetch _ -> let (src, r4) = take_text r3 in proj := !proj @ [0 :: put_jv v @ put_text src]; r := r4
-             | NListing _ | NUnknown _ | NWebfinger _ | NPaging _ | NFeed _ ->
+             | NListing _ | NUnknown _ | NWebfinger _ | NPaging _ | NFeed _ | NUserInput _ ->
                let (has, r4) = take1 r3 in
                if has = 0 then (proj := !proj @ [0 :: put_jv v @ [0]]; r := r4)
                else let (id, r5) = take_text r4 in (proj := !proj @ [0 :: put_jv v @ (1 :: put_text id)]; r := r5))
